@@ -585,19 +585,19 @@ def verdictshift(run, fx):
         run.held('RESOLVED', inst, fn.loc(ss[0]), 'setShift(%s) under nothing but tests of %s itself' % (res['n'], res['n']))
 
 
-def axisbase(run, fx):
+def axisbase(run, fx, q='graphite2::ShiftCollider::resolve', var='tbase', inst=None):
     """RESOLVED: the four interval sets of ShiftCollider work on x, y, x+y and x-y.  ShiftCollider::resolve converts the best position of
     axis i back with `- tbase`, where tbase must be that axis' linear form of the current offset: (1,0), (0,1), (1,1), (1,-1) for
     i = 0..3, read from the switch arms as linear forms over (_currOffset.x, _currOffset.y).  With the sum form on the diff axis the
     shift handed back is off by twice the vertical offset and the glyph is declared resolved at a position that was never tested."""
     from . import linear
     from .validators import case_context
-    fn = fx.one('graphite2::ShiftCollider::resolve')
+    fn = fx.one(q)
     ctx = case_context(fn)
     want = {0: (1, 0), 1: (0, 1), 2: (1, 1), 3: (1, -1)}
     got = {}
     for _, e in fn.elements():
-        if e['k'] == 'BinaryOperator' and e['op'] == '=' and fn.render(fn.N(e['c'][0])) == 'tbase':
+        if e['k'] == 'BinaryOperator' and e['op'] == '=' and fn.render(fn.N(e['c'][0])) == var:
             t, c = linear.lin(fn, e['c'][1])
             cx = sum(v for k_, v in t.items() if k_.endswith('_currOffset.x'))
             cy = sum(v for k_, v in t.items() if k_.endswith('_currOffset.y'))
@@ -609,17 +609,46 @@ def axisbase(run, fx):
                     if a == 'default' and k_ in got:
                         continue
                     got[k_] = (cx, cy) if not other and c == 0 else None
-    inst = 'resolve converts axis i back with that axis\' own form of the offset'
+    inst = inst or 'resolve converts axis i back with that axis\' own form of the offset'
     if len(got) < 4:
-        run.broken('RESOLVED', inst, 'the per-axis `tbase = ..` arms of ShiftCollider::resolve were not recognised (%s)' % got, fn.where())
+        run.broken('RESOLVED', inst, 'the per-axis `%s = ..` arms of %s were not recognised (%s)' % (var, q.split('::')[-1], got), fn.where())
         return
     # explicit case arms take precedence over a default arm
     bad = [(k_, got[k_]) for k_ in sorted(want) if got.get(k_) != want[k_]]
     if bad:
-        run.violated('RESOLVED', inst, fn.where(), 'for axis %d ShiftCollider::resolve uses tbase = %s * (offset.x, offset.y), the axis is %s: the shift handed back is wrong by a multiple of the '
-                     'other coordinate, the accumulated offset can leave the limit and the position reported as resolved was never tested' % (bad[0][0], bad[0][1], want[bad[0][0]]))
+        run.violated('RESOLVED', inst, fn.where(), 'for axis %d %s uses %s = %s (as a form over offset.x, offset.y; None = other terms such as the current shift are mixed in), the axis is %s: %s' % (bad[0][0], q.split('::')[-1], var, bad[0][1], want[bad[0][0]],
+                     'the shift handed back is wrong by a multiple of the other coordinate, the accumulated offset can leave the limit and the position reported as resolved was never tested' if var == 'tbase' else
+                     'the window [cmin, cmax] that decides whether a neighbour\'s blocked interval matters is displaced by the current shift: a neighbour that blocks near the end of the limit is skipped, and resolve reports the glyph resolved on top of it'))
     else:
         run.held('RESOLVED', inst, fn.where(), 'x, y, x+y, x-y for i = 0..3')
+
+
+def rangestart(run, fx):
+    """RESOLVED: "does not overlap ... any non-ignored neighbour within reach": Pass::resolveCollisions merges the neighbours it meets on
+    a walk that begins at its `start` argument, so every call in Pass::collisionShift begins that walk at an END of the collision range
+    -- never at the glyph being fixed itself (then everything in front of it is not looked at: phase 2b lets a glyph drift back onto an
+    obstacle that precedes it and still flags it resolved) -- and the forward phases (1 and 2b) agree on which end."""
+    fn = fx.one('graphite2::Pass::collisionShift')
+    calls = calls_in(fn, 'graphite2::Pass::resolveCollisions')
+    inst = 'every resolveCollisions call scans from an end of the collision range'
+    if len(calls) < 3:
+        run.broken('RESOLVED', inst, 'expected the three resolveCollisions calls of collisionShift (phases 1, 2a, 2b), found %d' % len(calls), fn.where())
+        return
+    fwd = {}
+    for e in calls:
+        fix, st = fn.render(fn.strip_all_casts(fn.N(e['args'][1]))), fn.render(fn.strip_all_casts(fn.N(e['args'][2])))
+        rev = fn.strip_all_casts(fn.N(e['args'][4])).get('v')
+        if fix == st:
+            run.violated('RESOLVED', inst, fn.loc(e), 'Pass::collisionShift calls resolveCollisions(seg, %s, %s, ..): the walk over the neighbours begins at the glyph that is being fixed, so no glyph on the '
+                         'other side of it is merged into the collider -- the glyph can be moved onto one of them and is still reported resolved' % (fix, st))
+            return
+        if rev in (0, False):
+            fwd.setdefault(st, []).append(e)
+    if len(fwd) > 1:
+        e = sorted(fwd.items(), key=lambda kv: len(kv[1]))[0][1][0]
+        run.violated('RESOLVED', inst, fn.loc(e), 'the forward phases of collisionShift begin their neighbour walks at different slots (%s): one of them does not cover the whole collision range' % sorted(fwd))
+    else:
+        run.held('RESOLVED', inst, fn.loc(calls[0]), '%d calls; forward phases start at `%s`' % (len(calls), list(fwd)[0] if fwd else '-'))
 
 
 def limitdiag(run, fx):
@@ -1002,7 +1031,7 @@ def run(run):
     N = 4 if run.tier == 'thorough' and not run.cfg_tag else 3
     for name, f in (('ZONESET', lambda: zoneset(run, fx, N)), ('ZONESET', lambda: initialise_exec(run, fx)), ('ZONEWRITERS', lambda: zonewriters(run, fx)),
                     ('OFFERED', lambda: offered(run, fx, N)), ('RESOLVED', lambda: resolved(run, fx)), ('RESOLVED', lambda: verdictshift(run, fx)),
-                    ('LIMITARGS', lambda: limitargs(run, fx)), ('LIMITARGS', lambda: kernclamp(run, fx)), ('LIMITARGS', lambda: initfresh(run, fx)), ('RESOLVED', lambda: axisbase(run, fx)), ('LIMITARGS', lambda: limitdiag(run, fx)), ('LIMITARGS', lambda: targetown(run, fx))):
+                    ('LIMITARGS', lambda: limitargs(run, fx)), ('LIMITARGS', lambda: kernclamp(run, fx)), ('LIMITARGS', lambda: initfresh(run, fx)), ('RESOLVED', lambda: rangestart(run, fx)), ('RESOLVED', lambda: axisbase(run, fx)), ('RESOLVED', lambda: axisbase(run, fx, 'graphite2::ShiftCollider::mergeSlot', 'torg', 'mergeSlot places the limit window of axis i at that axis\' own form of the offset')), ('LIMITARGS', lambda: limitdiag(run, fx)), ('LIMITARGS', lambda: targetown(run, fx))):
         try:
             f()
         except AnalysisBroken as ex:
